@@ -691,6 +691,7 @@ struct Engine
         if (grows && !m.e.empty() && m.e.size() < m.cap) cf.grow_partial = true;
         if (grows && !m.e.empty() && m.e.size() >= 2) cf.pending_reloc = true;
         const auto a = before();
+        const uint64_t ctm_before = CopyTrivMove8::move_constructions;
         {
             LibCall lc;
             if constexpr (Cfg::N_VARYING != 0)
@@ -709,6 +710,14 @@ struct Engine
             cf.data_allocs += 1;
             cf.quiet_streak = 0;
             if (std::as_const(*s[i].v).capacity() != n) viol("C10", "reserve_capacity", fmt("capacity() == %zu after reserve(%zu)", std::as_const(*s[i].v).capacity(), n));
+            if (ledger().alloc_events != a.allocs)
+            {
+                // relocation into the new block goes through the move constructor of types that are not trivially copyable
+                size_t ctm = 0;
+                for (auto& e : m.e) ctm += objects_of_type(Cfg::fields(), e.f, "Ctm8");
+                if (CopyTrivMove8::move_constructions - ctm_before != ctm)
+                    viol("C06", "relocation_bypasses_move_constructor", fmt("reserve relocated %zu objects of a type with trivial copy / user-provided move constructor, its move constructor ran %" PRIu64 " times", ctm, CopyTrivMove8::move_constructions - ctm_before));
+            }
             check_footprint(i, a.snap[i].valid ? footprint_before[i] : 0, 0, "reserve");
             fill_after_reserve = rng.chance(1, 2);
         }
@@ -791,6 +800,10 @@ struct Engine
             m.default_constructed = false;
             s[dst].m = m;
             adopt_observed_capacity(dst, sm);
+            // an allocator whose select_on_container_copy_construction sends copies elsewhere (pmr-like): a copy that stays in
+            // the source's memory resource is not independent of the source, it dies with the source's arena
+            if (K::SOCCC_DEFAULT && std::as_const(*s[dst].v).get_allocator().get_arena() != soccc_arena(sm.arena))
+                viol("C08,C09", "copy_shares_memory_resource_of_source", fmt("the copy allocates from arena %d, select_on_container_copy_construction of the source's allocator is arena %d", std::as_const(*s[dst].v).get_allocator().get_arena(), soccc_arena(sm.arena)));
             if (std::as_const(*s[dst].v).size() != sm.e.size()) viol("C09", "copy_size", fmt("copy has size() %zu, source %zu", std::as_const(*s[dst].v).size(), sm.e.size()));
             if (!sm.e.empty() && sm.e.size() < sm.cap) cf.partial_source_nonempty_target = true;
             cf.data_allocs += 1;
@@ -890,6 +903,7 @@ struct Engine
             if (!K::ALWAYS_EQUAL && sm.arena != dm.arena) cf.unequal_arena_transfer = cf.overlap_reloc_or_unequal_transfer = true;
         }
         const uint64_t moves_before = registry().move_constructed;
+        const uint64_t ctm_before = CopyTrivMove8::move_constructions;
         {
             LibCall lc;
             *s[dst].v = std::move(*s[src].v);
@@ -926,6 +940,12 @@ struct Engine
                 srcm.residual_objects = objs;
                 dm.fresh_block = false;
                 adopt_observed_capacity(dst, sm);
+                {
+                    size_t ctm = 0;
+                    for (auto& e : sm.e) ctm += objects_of_type(Cfg::fields(), e.f, "Ctm8");
+                    if (CopyTrivMove8::move_constructions - ctm_before != ctm)
+                        viol("C08,C06", "relocation_bypasses_move_constructor", fmt("move assignment between unequal non-propagating allocators ran the move constructor of %" PRIu64 " objects of a type with trivial copy / user-provided move, the source held %zu", CopyTrivMove8::move_constructions - ctm_before, ctm));
+                }
                 if (Cfg::HAS_TRACKED && registry().move_constructed - moves_before != objs)
                     viol("C08,C06", "elementwise_move_count", fmt("move assignment between unequal non-propagating allocators move-constructed %" PRIu64 " instrumented objects, the source held %zu", registry().move_constructed - moves_before, objs));
                 if (ledger().alloc_events != a.allocs) { cf.realloc_with_block = cf.realloc_with_block || a.snap[dst].data_begin != 0; cf.data_allocs += 1; }
